@@ -11,3 +11,7 @@ CONSTANTS
   Pres = {"none", "hop"}
   Maps = {"none"}
   MapRebuildLossy = FALSE
+  Sibs = {"none"}
+  Vias = {"seed"}
+  SkipBase = FALSE
+  GcByPrefix = FALSE
